@@ -127,6 +127,10 @@ def generate(rng, tier="quick"):
             op["shared_fn"] = rng.choice([None, None, 0, 1, 0])
             op["raises"] = rng.choice(["v", "v", "k", "vk", "none", "l"])
             op["name"] = rng.choice(["sim-evenlen", "sim-lower", "sim-noz", "ipv4", "sim-new-%d" % (i % 3)])
+            if k == "fc_checks" and rng.random() < 0.25:
+                op["builtin_target"] = True
+                op["name"] = rng.choice(["regex", "uri", "uri-reference", "sim-new-%d" % (i % 3)])
+                op["shared_fn"] = rng.choice([0, 1])
         if k == "fc_subset":
             op["names"] = rng.sample(["ipv4", "date", "regex", "email"], rng.randint(0, 3))
         ops.append(op)
@@ -204,7 +208,8 @@ def execute(scn):
         vec["check_schema"] = [outcome(lambda: K.check_schema(copy.deepcopy(c)))
                                for c in ({"minimum": "x"}, {"type": 12}, {"maxLength": -1}, {"minimum": 3, "type": "integer"},
                                          {"properties": {"a": {"enum": []}}}, {"required": "a"},
-                                         {"type": "even"}, {"type": ["nonempty", "string"]}, {"type": "ghost"})]
+                                         {"type": "even"}, {"type": ["nonempty", "string"]}, {"type": "ghost"},
+                                         {"pattern": "abc", "$id": "urn:x", "id": "urn:x", "$ref": "a b"})]
         vec["default_types"] = outcome(lambda: sorted((k, repr(t)) for k, t in K.DEFAULT_TYPES.items()))
         return vec
 
@@ -526,6 +531,12 @@ def execute(scn):
                 FormatChecker(formats=["ipv4", "ghost-format-%d" % op["v"]])
             elif k == "fc_checks":
                 own = [o for o in objs if o["kind"] == "fc" and o["born"] >= 0]
+                if op.get("builtin_target"):
+                    # the module-level jsonschema.draftN_format_checker objects are public FormatChecker instances
+                    # too: registering on one of them changes that checker - and no class, not even its draft's
+                    # (a name the probe battery does not use with that checker: the target itself is re-probed)
+                    own = [o for o in objs if o["kind"] == "fc" and o["born"] < 0 and o["note"].startswith("draft")]
+                    probe_count("registration_on_builtin_draft_checker")
                 if own:
                     tgt = own[op["a"] % len(own)]
                     fn = B.make_format(op["name"] if op["name"] in B.FORMATS else "sim-lower", op["v"], collab)
